@@ -18,11 +18,17 @@ def one(sid):
     wt = "/tmp/wt/seedrun_" + sid
     shutil.rmtree(wt, ignore_errors=True); os.makedirs(wt)
     subprocess.run("git -C /repo archive HEAD | tar -x -C %s" % wt, shell=True, check=True)
+    meta = json.load(open(os.path.join(d, "meta.json")))
+    r = subprocess.run("patch -p1 -s --dry-run < %s/patch.diff" % d, shell=True, cwd=wt, capture_output=True, text=True)
+    if r.returncode != 0:
+        # written against an older commit and touching code a later `fix:` changed: applied to that commit instead
+        base = meta.get("repo_head_when_seeded", "d534e3c")
+        shutil.rmtree(wt, ignore_errors=True); os.makedirs(wt)
+        subprocess.run("git -C /repo archive %s | tar -x -C %s" % (base, wt), shell=True, check=True)
     r = subprocess.run("patch -p1 -s < %s/patch.diff" % d, shell=True, cwd=wt, capture_output=True, text=True)
     if r.returncode != 0:
         shutil.rmtree(wt, ignore_errors=True)
         return sid, None, "patch does not apply: " + r.stdout + r.stderr
-    meta = json.load(open(os.path.join(d, "meta.json")))
     res = {}
     for p in PROPS:
         r = subprocess.run(["./check", p, "--root", wt], cwd="/verif", capture_output=True, text=True)
